@@ -91,6 +91,11 @@ P08h(hist, call, xs) ==
 
 \* ---- C19: going idle triggers the clean-up; never while transactions are open
 P19(cf, op, call, xs, ret) ==
+  \* no operation runs the clean-up over open transactions: not commit and cancel (below), and not begin or read_card either
+  IF call.op \in {"begin", "read_card"}
+  THEN (IF op # Empty /\ \E k \in 1..Len(xs) : xs[k].seq = "EndOfDay" \/ IsPendingQuery(xs[k])
+        THEN {"P19-cleanup-while-open-or-after-failure"} ELSE {})
+  ELSE
   IF ~(call.op \in {"commit", "cancel"} /\ call.tok \in DOMAIN op /\ xs # <<>>) THEN {}
   ELSE LET left == Without(op, call.tok)
            own == Has(xs[1], "CompletionData") /\ ~Aborted(xs[1])
